@@ -386,17 +386,23 @@ class XMLFormatter(GraphtageFormatter):
         self.print(printer, node.tag)
         if node.attrib:
             self.print(printer, node.attrib)
+        if node.text is None and isinstance(node, EditedTreeNode) and isinstance(node.edit, XMLElementEdit) \
+                and isinstance(node.edit.text_edit, Insert):
+            # the element had no text, but text is inserted into it
+            text = node.edit.text_edit
+        else:
+            text = node.text
         if node._children._children or (node.text is not None and '\n' in node.text.object):
             printer.write('>')
-            if node.text is not None:
-                self.print(printer, node.text)
+            if text is not None:
+                self.print(printer, text)
             self.print(printer, node._children)
             printer.write('</')
             self.print(printer, node.tag)
             printer.write('>')
-        elif node.text is not None:
+        elif text is not None:
             printer.write('>')
-            self.print(printer, node.text)
+            self.print(printer, text)
             printer.write('</')
             self.print(printer, node.tag)
             printer.write('>')
